@@ -1,6 +1,17 @@
 #!/bin/sh
-# builds the compiled model driver and every property module (each Props/Cxx.lean is its own root:
-# helper lemma files of different properties may reuse names, so they are never imported together)
+# builds the compiled model driver and every REGISTERED property module (props.py: PROPS[*]["modules"], default
+# [Cxx]); each Props module is its own root. Unregistered / in-progress files under Props/ are not built.
 cd "$(dirname "$0")" || exit 1
-mods=$(ls IdspModel/Props/*.lean | sed -e 's#/#.#g' -e 's#\.lean$##')
+mods=$(python3 - <<'PY'
+import sys
+sys.path.insert(0, "..")
+from props import PROPS
+seen = []
+for pid, c in PROPS.items():
+    for n in c.get("modules", [pid]):
+        if n not in seen:
+            seen.append(n)
+print(" ".join("IdspModel.Props." + n for n in seen))
+PY
+)
 exec lake build idsp_model $mods
